@@ -14,7 +14,7 @@ LEVEL = 'model_checking'
 def build_items(ctx, rnd):
     from wcmatch import fnmatch as F, glob as G
     items = []
-    segs = gen.segment_pool(ctx.tier, rnd, ext=True, budget=2000 if ctx.quick else 20000)
+    segs = gen.segment_pool(ctx.tier, rnd, ext=True, budget=2000 if ctx.quick else 8000)
     for k, nodes in enumerate(segs):
         items.append(('fn', nodes, F.EXTMATCH, 'hidden'))
         if k % 5 == 0:
@@ -28,7 +28,7 @@ def build_items(ctx, rnd):
             items.append(('gl', gi, G.EXTGLOB | G.MATCHBASE | G.GLOBSTAR, 'hidden'))
     E, D, S, L, MB, ND, NDD = G.EXTGLOB, G.DOTGLOB, G.GLOBSTAR, G.GLOBSTARLONG, G.MATCHBASE, G.NODIR, G.NODOTDIR
     fs = [E | S, E | S | D, E | S | NDD, E | S | D | NDD, E | S | MB, E | L | D, E | S | ND, E]
-    paths = gen.path_pool(ctx.tier, rnd, ext=True, budget=None if ctx.quick else 10000)
+    paths = gen.path_pool(ctx.tier, rnd, ext=True, budget=None if ctx.quick else 6000)
     for k, ast in enumerate(paths):
         if ctx.quick:
             chosen = [fs[0], fs[1], fs[2 + k % (len(fs) - 2)]]
@@ -91,7 +91,7 @@ def run(ctx):
     from engine import fsdriver
     from props import c05, c14
     ctx.coverage = {}
-    fsdriver.run_property(ctx, walk_combos(ctx), 'c05_classify', 3000 if ctx.quick else 60000, describe_walk,
+    fsdriver.run_property(ctx, walk_combos(ctx), 'c05_classify', 3000 if ctx.quick else 20000, describe_walk,
                           known_from=('C05',))
     walk_cov = ctx.coverage
     ctx.coverage = match_cov
